@@ -292,9 +292,15 @@ Definition restore_of (ad : adapter) (g : dg) : arg :=
      UNested bs      a composite rule: it runs an inner GraphVerifier(built-in rules bs,
                      raise_on_failure=True) on the graph it received (a NetworkX argument is first
                      adapted back to an OptGraph) and returns its result / lets its
-                     VerificationError (a ValueError) escape                                  *)
+                     VerificationError (a ValueError) escape
+     UMutate m r     a rule with a side effect: it first MODIFIES the graph object it received
+                     (drops its last node, cuts the parents of its first node, or renames its
+                     nodes) and then answers `r`.  Its outcome is `r`; what the modification hits
+                     is the subject of section 8.                                             *)
+Inductive mutation := MDropLast | MCutFirst | MRename.
+
 Inductive ubehav := UConst (o : outcome) | UEdgesLe (k : nat) (fail : outcome) | UNodesLe (k : nat) (fail : outcome)
-                 | UNested (bs : list builtin).
+                 | UNested (bs : list builtin) | UMutate (m : mutation) (ret : outcome).
 
 Definition arg_edges (a : arg) : nat :=
   match a with
@@ -331,6 +337,7 @@ Definition ubehav_fn (u : ubehav) (a : arg) : outcome :=
   | UEdgesLe k fail => if arg_edges a <=? k then RTrue else fail
   | UNodesLe k fail => if arg_nodes a <=? k then RTrue else fail
   | UNested bs => verdict_outcome (verify (fun g => AOpt true g) true (map builtin_rule bs) (arg_graph a))
+  | UMutate _ ret => ret
   end.
 
 Inductive crule := CB (b : builtin) | CU (native : bool) (u : ubehav).
@@ -398,6 +405,7 @@ Definition o_rule_holds (o : roracle) (c : crule) : bool :=
   | CU _ (UEdgesLe k fail) => (o_edge_count o <=? k) || negb (rejects fail)
   | CU _ (UNodesLe k fail) => (ro_n o <=? k) || negb (rejects fail)
   | CU _ (UNested bs) => forallb (o_cond o) bs
+  | CU _ (UMutate _ ret) => negb (rejects ret)
   end.
 
 (* a user rule whose declared behaviour is to raise something other than ValueError: the
@@ -409,6 +417,7 @@ Definition c_raises_other (o : roracle) (c : crule) : bool :=
   | CU _ (UEdgesLe k fail) => negb (o_edge_count o <=? k) && outcome_eqb fail ROther
   | CU _ (UNodesLe k fail) => negb (ro_n o <=? k) && outcome_eqb fail ROther
   | CU _ (UNested _) => false
+  | CU _ (UMutate _ ret) => outcome_eqb ret ROther
   end.
 
 (* the argument a user rule must have received: the internal graph itself when native, the
@@ -517,4 +526,107 @@ Definition check_seq (c : seq_case) : list bool :=
         forallb (fun x => verdict_eqb (fst x) (ob_verdict (snd (snd x))) &&
                           agree ad rf rules (fst (snd x)) (snd (snd x))) (combine vs cl);
         forallb (fun go => holds_b ad rf rules (fst go) (snd go)) cl ]
+  end.
+
+(* ---------------------------------------------------------------------------------------- *)
+(* 8. rules that modify the graph they are given                                             *)
+(* ---------------------------------------------------------------------------------------- *)
+(* state of the verified graph object: its structure and "some node was renamed by a rule" *)
+Definition gstate := (dg * bool)%type.
+
+(* nodes.remove(last) after removing `last` from every parent list *)
+Definition drop_last (g : dg) : dg :=
+  map (filter (fun p => negb (Nat.eqb p (length g - 1)))) (removelast g).
+
+(* nodes[0].nodes_from = [] *)
+Definition cut_first (g : dg) : dg := match g with [] => [] | _ :: r => [] :: r end.
+
+Definition mutate (m : mutation) (s : gstate) : gstate :=
+  match m with
+  | MDropLast => (drop_last (fst s), snd s)
+  | MCutFirst => (cut_first (fst s), snd s)
+  | MRename => (fst s, match fst s with [] => snd s | _ => true end)
+  end.
+
+(* is the object handed to the rule the verified graph itself?  native rules: yes (adapt_func
+   returns them unchanged); domain rules: only when restore is the identity (IdentityAdapter);
+   DirectAdapter hands over a deep copy, the NetworkX adapter a new DiGraph *)
+Definition aliases (ad : adapter) (native : bool) : bool :=
+  native || match ad with AdIdentity => true | _ => false end.
+
+Definition rule_effect (ad : adapter) (c : crule) (s : gstate) : gstate :=
+  match c with
+  | CU native (UMutate m _) => if aliases ad native then mutate m s else s
+  | _ => s
+  end.
+
+(* the rule loop with the state of the verified graph threaded through: each rule judges the
+   graph as it is when the rule is called *)
+Fixpoint verify_m (ad : adapter) (raise_flag : bool) (rules : list crule) (s : gstate) : verdict * gstate :=
+  match rules with
+  | [] => (Accept, s)
+  | c :: rest =>
+      let o := run_rule (restore_of ad) (denote c) (fst s) in
+      let s' := rule_effect ad c s in
+      match o with
+      | RFalse => (Reject, s')
+      | RValueError => (if raise_flag then RaiseVerification else Reject, s')
+      | ROther => (RaiseOther, s')
+      | RTrue | RNone => verify_m ad raise_flag rest s'
+      end
+  end.
+
+Fixpoint user_calls_m (ad : adapter) (i : nat) (rules : list crule) (s : gstate) : list (nat * arg) :=
+  match rules with
+  | [] => []
+  | c :: rest =>
+      let here := match c with
+                  | CB _ => []
+                  | CU true _ => [(i, AOpt true (fst s))]
+                  | CU false _ => [(i, restore_of ad (fst s))]
+                  end in
+      here ++ match run_rule (restore_of ad) (denote c) (fst s) with
+              | RTrue | RNone => user_calls_m ad (S i) rest (rule_effect ad c s)
+              | _ => []
+              end
+  end.
+
+(* observation of one call: verdict, user-rule calls, and the verified graph afterwards *)
+Record mobs := { mo_obs : obs; mo_final : dg; mo_renamed : bool }.
+
+(* the same verifier called on the same graph object several times *)
+Fixpoint agree_m (ad : adapter) (rf : bool) (rules : list crule) (s : gstate) (l : list mobs) : bool :=
+  match l with
+  | [] => true
+  | m :: r =>
+      let vs := verify_m ad rf rules s in
+      verdict_eqb (fst vs) (ob_verdict (mo_obs m)) &&
+      leqb (fun x y => Nat.eqb (fst x) (fst y) && arg_eqb (snd x) (snd y))
+           (user_calls_m ad 0 rules s) (ob_calls (mo_obs m)) &&
+      dg_eqb (fst (snd vs)) (mo_final m) && Bool.eqb (snd (snd vs)) (mo_renamed m) &&
+      agree_m ad rf rules (snd vs) r
+  end.
+
+Definition is_mutating (c : crule) : bool := match c with CU _ (UMutate _ _) => true | _ => false end.
+
+(* every modifying rule works on a separate object (copying adapter, rule not native) *)
+Definition protected (ad : adapter) (rules : list crule) : bool :=
+  forallb (fun c => match c with CU native (UMutate _ _) => negb (aliases ad native) | _ => true end) rules.
+
+(* the property on the observed behaviour: when every modifying rule is a domain rule under a
+   copying adapter ("given the RESTORED domain graph"), verification must leave the verified
+   graph as it was, and every call must satisfy the clauses of holds_l for the ORIGINAL graph.
+   When a modifying rule is native, or the adapter is the identity, the code hands the rule the
+   verified graph itself by definition; the property text says nothing about rules with side
+   effects on it, so those runs are judged by agree_m only. *)
+Definition holds_m (ad : adapter) (rf : bool) (rules : list crule) (g : dg) (l : list mobs) : bool :=
+  negb (protected ad rules) ||
+  forallb (fun m => dg_eqb (mo_final m) g && negb (mo_renamed m) &&
+                    holds_b ad rf rules g (mo_obs m)) l.
+
+Definition mcase := (dg * adapter * bool * list crule * list mobs)%type.
+
+Definition check_mut (c : mcase) : list bool :=
+  match c with
+  | (g, ad, rf, rules, l) => [agree_m ad rf rules (g, false) l; holds_m ad rf rules g l]
   end.
